@@ -32,17 +32,37 @@ class Api:
         self.reading = reading
         self.concrete = concrete
 
-    def tag(self, var, version, it, rl=0):
+    def tag(self, var, version, it, rl=0, kind='f'):
+        """opaque array content; kind 'i' = integer-typed array, 'f' = float array with a fractional part"""
         if self.concrete:
-            return np.array([float(version), float(hash(var) % 97), float(it), float(rl)])
-        return ('tag', var, version, it, rl)
+            if kind == 'i':
+                return np.array([int(version), hash(var) % 97, int(it), int(rl)], dtype=np.int64)
+            return np.array([float(version) + 0.5, float(hash(var) % 97), float(it), float(rl)])
+        return Tag(('tag', var, version, it, rl), kind)
 
     def same(self, a, b):
         if a is None or b is None:
             return a is None and b is None
         if self.concrete:
             return isinstance(a, np.ndarray) and np.array_equal(a, b)
+        if getattr(a, 'cast_from', None) or getattr(b, 'cast_from', None):
+            return False                                   # the stored values went through a lossy dtype conversion
         return a[:3] == b[:3] and a[3] == b[3] and a[4] == b[4]
+
+
+class Tag(tuple):
+    """opaque array content with the two properties of an array the code under test can see: shape and dtype kind"""
+    shape = (4,)
+
+    def __new__(cls, items, kind='f', cast_from=None):
+        self = super().__new__(cls, items)
+        self.dtype = kind
+        self.cast_from = cast_from
+        return self
+
+    def converted(self, kind):
+        # integer values stored in a float dataset keep their value; float values stored in an integer dataset do not
+        return Tag(tuple(self), kind, cast_from=(self.dtype if (self.dtype, kind) == ('f', 'i') else self.cast_from))
 
 
 def distinct(vs):
@@ -134,7 +154,7 @@ def sc_ragged(n, hole):
     return (f'ragged-None n={n} hole={hole}', names, pre, body)
 
 
-def sc_overwrite(n, m, k):
+def sc_overwrite(n, m, k, kinds=('f', 'f')):
     names = [f'i{j}' for j in range(n)] + [f's{j}' for j in range(m)] + [f'a{j}' for j in range(k)]
 
     def pre(v):
@@ -144,8 +164,8 @@ def sc_overwrite(n, m, k):
     def body(api, v):
         its, sel1, sel2 = list(v[:n]), list(v[n:n + m]), list(v[n + m:])
         R = api.reading
-        d1 = {'it': list(its), 'v': [api.tag('v', 1, i) for i in its]}
-        d2 = {'it': list(reversed(its)), 'v': [api.tag('v', 2, i) for i in reversed(its)]}
+        d1 = {'it': list(its), 'v': [api.tag('v', 1, i, kind=kinds[0]) for i in its]}
+        d2 = {'it': list(reversed(its)), 'v': [api.tag('v', 2, i, kind=kinds[1]) for i in reversed(its)]}
         R.save_data({'datapath': api.root + '/d/'}, d1, vars=['v'], it=list(sel1))
         R.save_data({'datapath': api.root + '/d/'}, d2, vars=['v'], it=list(sel2))
         out = R.read_data({'datapath': api.root + '/d/'}, it=list(its), vars=['v'])
@@ -153,11 +173,11 @@ def sc_overwrite(n, m, k):
         probs = []
         for j in range(len(ss)):
             i = ss[j]
-            want = api.tag('v', 2, i) if i in sel2 else (api.tag('v', 1, i) if i in sel1 else None)
+            want = api.tag('v', 2, i, kind=kinds[1]) if i in sel2 else (api.tag('v', 1, i, kind=kinds[0]) if i in sel1 else None)
             if not api.same(out['v'][j], want):
                 probs.append('after two saves the most recent array for the iteration is not returned')
         return probs
-    return (f'overwrite n={n} m={m} k={k}', names, pre, body)
+    return (f'overwrite n={n} m={m} k={k}' + ('' if kinds == ('f', 'f') else f' dtypes={kinds[0]}->{kinds[1]}'), names, pre, body)
 
 
 def sc_overwrite_none(n, hole):
@@ -288,6 +308,7 @@ def scenarios(tier):
         for hole in range(n):
             out.append(sc_ragged(n, hole))
         out.append(sc_overwrite(n, 1, 1))
+        out.append(sc_overwrite(n, 1, 1, kinds=('i', 'f') if n % 2 else ('f', 'i')))
         out.append(sc_all_vars(n))
         out.append(sc_readall_ragged(n))
         out.append(sc_overwrite_none(n, n - 1))
